@@ -42,7 +42,9 @@ INTERPRETER_FLAGS = [[], ['-O'], [], ['-bb']]
 SHARDS = {'quick': 4, 'thorough': 16}
 
 CANON = ['utf-8', 'utf-16', 'utf-32', 'latin-1', 'ascii', 'cp1252', 'shift_jis', 'euc_jp',
-         'koi8-r', 'cp437', 'iso2022_jp', 'utf-7']
+         'koi8-r', 'cp437', 'iso2022_jp', 'utf-7',
+         # codecs in which even the ASCII letters have other byte values (EBCDIC pages) and a UTF-8 variant with a BOM
+         'cp500', 'cp037', 'cp1140', 'utf-8-sig']
 ALIASES = {'utf-8': ['utf8', 'utf_8', 'U8', 'UTF8'], 'utf-16': ['utf16', 'UTF_16', 'u16'],
            'utf-32': ['utf32', 'U32', 'utf_32'],
            'latin-1': ['latin1', 'iso-8859-1', 'L1', 'ISO8859-1', 'latin_1'],
@@ -50,7 +52,8 @@ ALIASES = {'utf-8': ['utf8', 'utf_8', 'U8', 'UTF8'], 'utf-16': ['utf16', 'UTF_16
            'shift_jis': ['sjis', 'shiftjis', 's_jis', 'Shift-JIS'],
            'euc_jp': ['eucjp', 'ujis', 'EUC-JP'], 'koi8-r': ['koi8_r', 'KOI8_R'],
            'cp437': ['ibm437', '437', 'IBM437'], 'iso2022_jp': ['iso-2022-jp', 'csiso2022jp', 'ISO2022JP'],
-           'utf-7': ['utf7', 'U7', 'UTF_7']}
+           'utf-7': ['utf7', 'U7', 'UTF_7'], 'cp500': ['CP500', 'ebcdic-cp-be', '500'], 'cp037': ['IBM037', 'ibm039', '037'],
+           'cp1140': ['ibm1140', 'CP1140'], 'utf-8-sig': ['utf_8_sig', 'UTF-8-SIG']}
 POLICIES = ['strict', 'ignore', 'replace']
 BOM_CODECS = ('utf-16', 'utf-32')
 SLUG_RE = re.compile(r'[a-z0-9_-]*')
